@@ -113,22 +113,22 @@ fn find_prop(id: &str) -> Option<PropDef> {
 fn workload_scale(prop: &str, tier: Tier) -> u64 {
     let (q, t) = match prop {
         "C01" => (10, 6),
-        "C02" => (30, 6),
-        "C03" => (60, 6),
-        "C04" => (100, 6),
+        "C02" => (30, 4),
+        "C03" => (60, 40),
+        "C04" => (100, 40),
         "C05" => (3, 2),
         "C06" => (20, 6),
-        "C07" => (10, 6),
-        "C08" => (100, 6),
-        "C09" => (200, 6),
+        "C07" => (10, 3),
+        "C08" => (100, 40),
+        "C09" => (200, 40),
         "C10" => (150, 6),
-        "C11" => (300, 6),
+        "C11" => (300, 60),
         "C12" => (30, 6),
         "C13" => (25, 6),
         "C14" => (15, 6),
         "C15" => (400, 6),
         "C16" => (1000, 6),
-        "C17" => (6, 2),
+        "C17" => (6, 4),
         "C18" => (400, 6),
         "C19" => (100, 6),
         "C20" => (40, 4),
@@ -247,7 +247,8 @@ fn cmd_run(args: &[String]) -> i32 {
             }
             // the lite tier (Miri / sanitizer builds) runs a handful of cases of every generator
             if tier == Tier::Lite {
-                let cap = if cfg!(miri) { 2 } else { 8 };
+                // under Miri one case of the heavy end-to-end exchanges takes minutes
+                let cap = if cfg!(miri) { if matches!(p.id, "C01" | "C07" | "C14") { 1 } else { 2 } } else { 8 };
                 if g.count > cap {
                     g.count = cap;
                     g.exhaustive = false;
